@@ -1053,10 +1053,132 @@ def gen_C16(rng, tier, dist):
     return out
 
 
+XFUNCS_BYTES = ["annexb_to_avcc", "hevc_annexb_to_hvcc", "nals", "extract_avc", "extract_hevc", "extract_av1", "extract_vp9",
+                "is_h264_key", "is_hevc_key", "is_av1_key", "is_vp9_key", "is_valid_vp9", "hevc_nal_type", "leb128", "obu_header",
+                "obus", "opus_samples", "opus_valid", "opus_count"]
+
+
+def gen_C12(rng, tier, dist):
+    out = []
+    # --- raw stream: all byte strings up to length L over a small alphabet, every bytes-function
+    alphabet = [0x00, 0x01, 0x0A, 0x12, 0x32, 0x49, 0x83, 0x42, 0x80, 0xFF, 0x67, 0xE0]
+    L = 2 if tier == "quick" else 3
+    for n in range(0, L + 1):
+        for tup in itertools.product(alphabet, repeat=n):
+            for fn in XFUNCS_BYTES:
+                out.append("X %s %s" % (fn, hx(bytes(tup))))
+    dist["raw_exhaustive_len<=%d" % L] = len(out)
+    # --- structured stream: valid inputs truncated at every length / bit-flipped / extreme literals
+    seeds = []
+    for codec in VCODECS:
+        seeds.append((codec, key_frame(rng, codec)))
+        seeds.append((codec, delta_frame(rng, codec)))
+    seeds.append(("av1", av1_keyframe_from(rng, dist)))
+    seeds.append(("av1", av1_keyframe_from(rng, dist, dict(timing=1, dmi=1, opcnt=3))))
+    seeds.append(("adts", adts(rng)))
+    seeds.append(("opus", opus_pkt(rng, 5)))
+    seeds.append(("opus", bytes([0xFF, 0x3F, 1, 2])))
+    fn_for = {"h264": ["annexb_to_avcc", "extract_avc", "is_h264_key", "nals"], "h265": ["hevc_annexb_to_hvcc", "extract_hevc", "is_hevc_key"],
+              "av1": ["extract_av1", "is_av1_key", "obus", "obu_header"], "vp9": ["extract_vp9", "is_vp9_key", "is_valid_vp9"],
+              "adts": ["opus_valid"], "opus": ["opus_samples", "opus_valid", "opus_count"]}
+    nmut = 40 if tier == "quick" else 600
+    for codec, data in seeds:
+        for fn in fn_for[codec]:
+            for cut in range(len(data) + 1):
+                out.append("X %s %s" % (fn, hx(data[:cut])))
+            for _ in range(nmut):
+                b = bytearray(data)
+                for _ in range(rng.randrange(1, 4)):
+                    j = rng.randrange(len(b))
+                    b[j] = rng.choice([b[j] ^ (1 << rng.randrange(8)), 0x00, 0xFF, 0x80, 0x7F])
+                out.append("X %s %s" % (fn, hx(bytes(b))))
+            dist["structured_" + fn] += len(data) + 1 + nmut
+    for _ in range(200 if tier == "quick" else 20000):
+        fn = rng.choice(XFUNCS_BYTES)
+        n = rng.choice([5, 17, 100, 4096]) if rng.random() < 0.5 else rng.randrange(0, 64)
+        out.append("X %s %s" % (fn, hx(bytes(rng.choice([0, 0, 1, 0xFF, rng.randrange(256)]) for _ in range(n)))))
+    # leb128 / obu sizes with extreme values
+    for v in [0, 127, 128, 2 ** 32, 2 ** 56 - 1, 2 ** 63]:
+        enc = bytearray()
+        x = v
+        for _ in range(10):
+            enc.append((x & 0x7F) | 0x80); x >>= 7
+        for k in range(1, 11):
+            e = bytes(enc[:k - 1]) + bytes([enc[k - 1] & 0x7F])
+            out.append("X leb128 %s" % hx(e))
+            out.append("X obu_header %s" % hx(bytes([0x0A]) + e))
+            out.append("X obus %s" % hx(bytes([0x0A]) + e + bytes(4)))
+            out.append("X extract_av1 %s" % hx(bytes([0x0A]) + e + bytes(4)))
+    for x in range(256):
+        out.append("X obu_bits %d" % x)
+        out.append("X opus_dur %d" % x)
+        out.append("X is_hevc_key_type %d" % x)
+    for ch in (0, 1, 2, 3, 255):
+        out.append("X opus_cfg %d %d" % (ch, rng.choice([0, 312, 65535])))
+    f64s = [0.0, -0.0, 1.0, -1.0, 29.97, 120.0, 120.0000001, float("inf"), -float("inf"), float("nan"), 5e-324, 1e300]
+    for codec in VCODECS:
+        for w, h in [(0, 0), (1, 1), (320, 240), (4096, 2160), (4097, 2160), (2 ** 32 - 1, 2 ** 32 - 1)]:
+            for f in f64s:
+                out.append("X validate_video_config %s %d %d %s" % (codec, w, h, f64bits(f)))
+    for ac in AUDIOS[1:] + ["cnone"]:
+        for r in (0, 1, 48000, 192000, 192001, 2 ** 32 - 1):
+            for ch in (0, 1, 8, 9, 255):
+                out.append("X validate_audio_config %s %d %d" % (ac, r, ch))
+        for d in [b"", b"\xff", adts(rng), opus_pkt(rng, 3), bytes(7)]:
+            out.append("X validate_audio_frame %s %s" % (ac, hx(d)))
+    for codec in VCODECS:
+        for d in [b"", bytes(3), key_frame(rng, codec), delta_frame(rng, codec), SC3, SC4 + SC3]:
+            for k in (0, 1):
+                out.append("X validate_video_frame %s %s %d" % (codec, hx(d), k))
+    for sname in ["h264", "H.264", "AVC", "hevc", "av1", "VP9", "", "x", "h.265", "\u00e9"]:
+        out.append("X vcodec_str %s" % hx(sname.encode()))
+    for sname in ["aac", "AAC-LC", "aac-main", "aac-hev2", "opus", "none", "", "mp3"]:
+        out.append("X acodec_str %s" % hx(sname.encode()))
+    # --- progressive muxer: extreme configurations and call sequences
+    n = 600 if tier == "quick" else 40000
+    for _ in range(n):
+        codec = rng.choice(VCODECS)
+        audio = rng.choice(AUDIOS + ["cnone"])
+        w = rng.choice([0, 1, 640, 65535, 65536, 2 ** 32 - 1])
+        h = rng.choice([0, 1, 480, 65535, 65536, 2 ** 32 - 1])
+        rate = rng.choice([0, 1, 8000, 48000, 96000, 2 ** 32 - 1])
+        ch = rng.choice([0, 1, 2, 8, 255, 256, 65535])
+        md = rng.choice([dict(md=0), dict(md=1, title=rng.choice([None, b"", bytes(rng.choice(b"ab\xc3\xa9") for _ in range(0))or b"t", "\U0001F600".encode() * 50]),
+                                         ctime=rng.choice([None, 0, 2 ** 31, 2 ** 32, 253402300800, 10 ** 15, 2 ** 63, 2 ** 64 - 1]),
+                                         lang=rng.choice([None, b"", b"e", b"eng", b"\xf0\x9f\x98\x80ab", b"\x7f\x7f\x7f", b"ENGLISH"]))])
+        ops = contract_history(rng, dist, codec, audio, maxlen=10)
+        extra = ""
+        if rng.random() < 0.05:
+            extra = "novideo=1"
+        out.append(pcase(cfg_str(codec=codec, w=w, h=h, fps=rng.choice(f64s), audio=audio, rate=rate, ch=ch, fast=rng.randrange(2), extra=extra, **md), ops))
+    # --- fragmented muxer: extreme configurations and operations
+    for _ in range(300 if tier == "quick" else 20000):
+        cfg = "w=%d h=%d ts=%d fd=%d sps=%s pps=%s" % (rng.choice([0, 640, 65536, 2 ** 32 - 1]), rng.choice([0, 480, 2 ** 32 - 1]),
+                                                   rng.choice([0, 1, 90000, 2 ** 32 - 1]), rng.choice([0, 1, 2000, 2 ** 32 - 1]),
+                                                   rng.choice(["~", "-", "67", "6742001e"]), rng.choice(["~", "-", "68ce"]))
+        if rng.random() < 0.3:
+            cfg = frag_cfg(rng, dist)
+        if rng.random() < 0.15:
+            cfg = "w=640 h=480 via=builder codec=%s" % rng.choice(VCODECS)      # missing parameter sets
+        ops = []
+        dts = rng.choice([0, 2 ** 32, 2 ** 63, 2 ** 64 - 10])
+        for _ in range(rng.randrange(1, 12)):
+            r = rng.random()
+            if r < 0.6:
+                pts = rng.choice([dts, 0, 2 ** 64 - 1, dts + 3000 if dts + 3000 < 2 ** 64 else dts])
+                ops.append("fw %d %d %s %d" % (pts, dts, hx(bytes(rng.randrange(256) for _ in range(rng.choice([0, 1, 9])))), rng.randrange(2)))
+                dts = min(2 ** 64 - 1, dts + rng.choice([0, 1, 3000, 2 ** 32, 2 ** 62]))
+            else:
+                ops.append(rng.choice(["fflush", "fready", "fdur", "finit"]))
+        ops.append("fflush")
+        out.append(fcase(cfg, ops))
+    return out
+
+
 GENERATORS = {"C14": gen_C14, "C01": gen_C01, "C02": gen_C02, "C03": gen_C03, "C15": gen_C15, "C06": gen_C06,
               "C09": gen_C09, "C08": gen_C08, "C18": gen_C18, "C04": gen_C04, "C05": gen_C05,
               "C10": gen_C10, "C11": gen_C11, "C13": gen_C13,
-              "C07": gen_C07, "C19": gen_C19, "C16": gen_C16}
+              "C07": gen_C07, "C19": gen_C19, "C16": gen_C16, "C12": gen_C12}
 
 RULES = {
     "C14": "exhaustive byte strings up to a length bound over {00,01,02,03,67,FF} through both conversion entry points; "
